@@ -229,3 +229,29 @@ fn kx_vecdeque_advance_beyond_panics() {
     Buf::advance(&mut d, a);
     assert!(false, "advance beyond remaining returned");
 }
+
+// @ob props=C09,C13 tier=quick kind=Kbounded bound="underlying slice of 0..=4 bytes; position any u64" fns=Buf_for_Cursor::remaining,Buf_for_Cursor::chunk,Buf_for_Cursor::advance
+#[kani::proof]
+fn kx_cursor_cursor_laws_any_position() {
+    // real-type twin of V `impl Buf for io::Cursor<AbsT>`: the position is ANY u64, in particular
+    // beyond the end (set_position / Seek): then the cursor denotes the empty sequence - remaining 0,
+    // chunk empty (not a panic: seed C09-7), advance(0) accepted.
+    let data: [u8; 4] = kani::any();
+    let n: usize = kani::any();
+    kani::assume(n <= 4);
+    let mut c = std::io::Cursor::new(&data[..n]);
+    let pos: u64 = kani::any();
+    c.set_position(pos);
+    let rem = if pos >= n as u64 { 0 } else { n - pos as usize };
+    assert!(Buf::remaining(&c) == rem && Buf::has_remaining(&c) == (rem > 0));
+    let ch = Buf::chunk(&c);
+    assert!(ch.len() == rem);
+    let i: usize = kani::any();
+    if i < rem { assert!(ch[i] == data[pos as usize + i]); }
+    let k: usize = kani::any();
+    kani::assume(k <= rem);
+    Buf::advance(&mut c, k);
+    assert!(c.position() == pos + k as u64 && Buf::remaining(&c) == rem - k);
+    kani::cover!(pos > 4 && k == 0, "advance(0) beyond the end");
+    kani::cover!(rem > 0 && k == rem);
+}
